@@ -65,14 +65,14 @@ Section Open.
 Variable line : bytes.
 Hypothesis LN : lf_terminated line.
 
-Definition HRc (r : bool * nat * pstate) : Prop :=
+Definition HRc (st0 : pstate) (r : bool * nat * pstate) : Prop :=
   let '(handled, c, st') := r in
   if handled then C0 line st' /\ (c_offset (ps_cur st') < List.length line
                                   \/ forall n, get st' c = Ok n -> accepts_lines (bkind n) = true)
-  else F1 line st'.
+  else F1 line st' /\ c_indent (ps_cur st') = c_indent (ps_cur st0).
 
-Lemma fin_add_child o s1 c v col : C0 line s1 -> c_offset (ps_cur s1) < List.length line ->
-  sgc HRc (do a <- add_child o s1 c v col; Ok (true, fst a, snd a)).
+Lemma fin_add_child st0 o s1 c v col : C0 line s1 -> c_offset (ps_cur s1) < List.length line ->
+  sgc (HRc st0) (do a <- add_child o s1 c v col; Ok (true, fst a, snd a)).
 Proof.
   intros C Lt. eapply sg_bind; [apply add_child_kc|]. intros [id s2] _ K. cbn [sg HRc fst snd] in *.
   split; [eapply C0_KC; eassumption | left; destruct K as [-> _]; exact Lt].
@@ -84,17 +84,17 @@ Proof. intro F. exact F. Qed.
 Ltac f1start F :=
   destruct (F1_in _ _ LN F) as (Le & Lt & b0 & Hb0 & Sp0); pose proof F as [(Fr & B & Ind & Bl & Len) Lo].
 
-Lemma handle_alert_cur o st c ind : F1 line st -> sgc HRc (handle_alert o st c line ind).
+Lemma handle_alert_cur o st c ind : F1 line st -> sgc (HRc st) (handle_alert o st c line ind).
 Proof.
   intro F. f1start F.
   unfold handle_alert, not_handled, fns, offset.
-  destruct (ind || negb (bo_alerts o)); [exact F|].
+  destruct (ind || negb (bo_alerts o)); [exact (conj F eq_refl)|].
   eapply sg_bind; [apply sg_idx; left; exact Lt|]. intros b _ Hb.
-  destruct (negb (beqb b x3e)); [exact F|].
-  destruct (scan_alert_start _) as [ty|] eqn:Sc; [|exact F].
+  destruct (negb (beqb b x3e)); [exact (conj F eq_refl)|].
+  destruct (scan_alert_start _) as [ty|] eqn:Sc; [|exact (conj F eq_refl)].
   destruct (BlocksTotal4Scan.alert_title_loop_ok line (c_fns (ps_cur st)) ty ltac:(lia) Sc) as (p & fl & EL & Bp). rewrite EL. cbn [bind].
   cbv beta iota zeta.
-  destruct (_ || _); [exact F|].
+  destruct (_ || _); [exact (conj F eq_refl)|].
   eapply sg_bind; [apply sg_slice_from; left; lia|]. intros t0 _ _.
   apply sgb; [auto with ngc|]. intros t1 _. apply sgb; [auto with ngc|]. intros t2 _. apply sgb; [auto with ngc|]. intros t3 _.
   apply sgb; [destruct t3; nggo|]. intros title _.
@@ -105,13 +105,13 @@ Proof.
   apply fin_add_child; [exact C | lia].
 Qed.
 
-Lemma handle_mbq_cur o st c ind : F1 line st -> sgc HRc (handle_multiline_blockquote o st c line ind).
+Lemma handle_mbq_cur o st c ind : F1 line st -> sgc (HRc st) (handle_multiline_blockquote o st c line ind).
 Proof.
   intro F. f1start F.
   unfold handle_multiline_blockquote, rest_at_fns, not_handled, fns, offset.
-  destruct (ind || _); [exact F|].
+  destruct (ind || _); [exact (conj F eq_refl)|].
   eapply sg_bind; [apply sg_slice_from; left; lia|]. intros rest _ [-> _].
-  destruct (scan_open_multiline_block_quote_fence _) as [m|] eqn:Sc; [|exact F].
+  destruct (scan_open_multiline_block_quote_fence _) as [m|] eqn:Sc; [|exact (conj F eq_refl)].
   pose proof (before_lf_at _ BlocksTotal4Scan.scan_open_mbq_fence_before_lf _ _ _ LN Lt Sc) as Lm.
   cbv zeta.
   eapply sg_bind; [apply sg_sub; left; exact Le|]. intros fo _ _.
@@ -121,14 +121,14 @@ Proof.
   cbn [sg HRc]. split; [exact C | left; rewrite A, Kc; lia].
 Qed.
 
-Lemma handle_blockquote_cur o st c ind : F1 line st -> sgc HRc (handle_blockquote o st c line ind).
+Lemma handle_blockquote_cur o st c ind : F1 line st -> sgc (HRc st) (handle_blockquote o st c line ind).
 Proof.
   intro F. f1start F.
   unfold handle_blockquote, not_handled, fns, offset.
-  destruct ind; [exact F|].
+  destruct ind; [exact (conj F eq_refl)|].
   eapply sg_bind; [apply sg_idx; left; exact Lt|]. intros b _ Hb. cbv beta in Hb.
-  destruct (negb (beqb b x3e)) eqn:Eb; [exact F|]. apply negb_false_iff, beqb_eq in Eb.
-  apply sgb; [eapply is_not_greentext_cur; eassumption|]. intros g _. destruct (negb g); [exact F|].
+  destruct (negb (beqb b x3e)) eqn:Eb; [exact (conj F eq_refl)|]. apply negb_false_iff, beqb_eq in Eb.
+  apply sgb; [eapply is_not_greentext_cur; eassumption|]. intros g _. destruct (negb g); [exact (conj F eq_refl)|].
   assert (NL : S (c_fns (ps_cur st)) < List.length line) by (eapply not_last; [exact LN | exact Hb | subst b; discriminate]).
   eapply sg_bind; [apply sg_sub; left; lia|]. intros k _ [-> _].
   eapply sg_bind; [apply adv_bytes_C0; [exact Len | lia]|]. intros s1 _ [C A].
@@ -138,13 +138,13 @@ Qed.
 
 (* ATX heading: the cursor part; what makes the loop stop is in Proofs/BlocksTotal4Atx.v *)
 Lemma handle_atx_cur o st c ind : F1 line st ->
-  sgc (fun r : bool * nat * pstate => let '(h, c', st') := r in if h then C0 line st' else F1 line st') (handle_atx_heading o st c line ind).
+  sgc (fun r : bool * nat * pstate => let '(h, c', st') := r in if h then C0 line st' else F1 line st' /\ c_indent (ps_cur st') = c_indent (ps_cur st)) (handle_atx_heading o st c line ind).
 Proof.
   intro F. f1start F.
   unfold handle_atx_heading, rest_at_fns, not_handled, fns, offset.
-  destruct ind; [exact F|].
+  destruct ind; [exact (conj F eq_refl)|].
   eapply sg_bind; [apply sg_slice_from; left; lia|]. intros rest _ [-> _].
-  destruct (scan_atx_heading_start _) as [m|] eqn:Sc; [|exact F].
+  destruct (scan_atx_heading_start _) as [m|] eqn:Sc; [|exact (conj F eq_refl)].
   pose proof (scan_atx_heading_start_le _ _ Sc) as Lm. rewrite skipn_length in Lm.
   cbv zeta.
   eapply sg_bind; [apply sg_sub; left; lia|]. intros k _ [-> _].
@@ -154,13 +154,13 @@ Proof.
   eapply sg_bind; [apply add_child_gen_kc|]. intros [id s2] _ K. cbn [sg fst snd] in *. eapply C0_KC; eassumption.
 Qed.
 
-Lemma handle_code_fence_cur o st c ind : F1 line st -> sgc HRc (handle_code_fence o st c line ind).
+Lemma handle_code_fence_cur o st c ind : F1 line st -> sgc (HRc st) (handle_code_fence o st c line ind).
 Proof.
   intro F. f1start F.
   unfold handle_code_fence, rest_at_fns, not_handled, fns, offset.
-  destruct ind; [exact F|].
+  destruct ind; [exact (conj F eq_refl)|].
   eapply sg_bind; [apply sg_slice_from; left; lia|]. intros rest _ [-> _].
-  destruct (scan_open_code_fence _) as [m|] eqn:Sc; [|exact F].
+  destruct (scan_open_code_fence _) as [m|] eqn:Sc; [|exact (conj F eq_refl)].
   pose proof (before_lf_at _ BlocksTotal4Scan.scan_open_code_fence_before_lf _ _ _ LN Lt Sc) as Lm.
   cbv zeta.
   eapply sg_bind; [apply sg_idx; left; exact Lt|]. intros fc _ _.
@@ -171,25 +171,25 @@ Proof.
   cbn [sg HRc]. split; [exact C | left; rewrite A, Kc; lia].
 Qed.
 
-Lemma handle_html_block_cur o st c ind : F1 line st -> sgc HRc (handle_html_block o st c line ind).
+Lemma handle_html_block_cur o st c ind : F1 line st -> sgc (HRc st) (handle_html_block o st c line ind).
 Proof.
   intro F. f1start F.
   unfold handle_html_block, rest_at_fns, not_handled, fns.
-  destruct ind; [exact F|].
+  destruct ind; [exact (conj F eq_refl)|].
   eapply sg_bind; [apply sg_slice_from; left; lia|]. intros rest _ _.
   apply sgb; [auto with ngc|]. intros cn _. cbv zeta.
-  destruct (match scan_html_block_start rest with Some m => Some m | None => _ end) as [m|]; [|exact F].
+  destruct (match scan_html_block_start rest with Some m => Some m | None => _ end) as [m|]; [|exact (conj F eq_refl)].
   apply fin_add_child; [apply F0_C0; exact (proj1 F) | exact Lo].
 Qed.
 
-Lemma handle_setext_cur o st c ind : F1 line st -> sgc HRc (handle_setext_heading o st c line ind).
+Lemma handle_setext_cur o st c ind : F1 line st -> sgc (HRc st) (handle_setext_heading o st c line ind).
 Proof.
   intro F. f1start F.
   unfold handle_setext_heading, rest_at_fns, not_handled, fns, offset.
-  destruct ind; [exact F|].
-  apply sgb; [auto with ngc|]. intros cn _. destruct (negb (is_paragraph cn)); [exact F|].
+  destruct ind; [exact (conj F eq_refl)|].
+  apply sgb; [auto with ngc|]. intros cn _. destruct (negb (is_paragraph cn)); [exact (conj F eq_refl)|].
   eapply sg_bind; [apply sg_slice_from; left; lia|]. intros rest _ _.
-  destruct (if bo_ignore_setext o then None else scan_setext_heading_line rest) as [sc|]; [|exact F].
+  destruct (if bo_ignore_setext o then None else scan_setext_heading_line rest) as [sc|]; [|exact (conj F eq_refl)].
   apply sgb; [auto with ngc|]. intros [[content' hc] m'] _. cbv zeta.
   eapply sg_bind; [apply modify_info_kc|]. intros s1 _ [Kc Kl]. cbn [ps_cur ps_curline_len st_refmap] in Kc, Kl.
   destruct hc.
@@ -200,14 +200,14 @@ Proof.
   - cbn [sg HRc]. split; [eapply C0_KC; [split; eassumption | apply F0_C0; exact (proj1 F)] | left; rewrite Kc; exact Lo].
 Qed.
 
-Lemma handle_thematic_break_cur o st c ind am : F1 line st -> sgc HRc (handle_thematic_break o st c line ind am).
+Lemma handle_thematic_break_cur o st c ind am : F1 line st -> sgc (HRc st) (handle_thematic_break o st c line ind am).
 Proof.
   intro F. f1start F.
   unfold handle_thematic_break, not_handled, fns, offset.
-  destruct ind; [exact F|].
-  apply sgb; [auto with ngc|]. intros cn _. destruct (is_paragraph cn && negb am); [exact F|].
-  destruct (negb (Nat.leb _ _)); [exact F|].
-  destruct (scan_thematic_break_inner line _) as [off found]. destruct (negb found); [apply F1_tbkp; exact F|].
+  destruct ind; [exact (conj F eq_refl)|].
+  apply sgb; [auto with ngc|]. intros cn _. destruct (is_paragraph cn && negb am); [exact (conj F eq_refl)|].
+  destruct (negb (Nat.leb _ _)); [exact (conj F eq_refl)|].
+  destruct (scan_thematic_break_inner line _) as [off found]. destruct (negb found); [exact (conj F eq_refl)|].
   eapply sg_bind; [apply add_child_kc|]. intros [tb s1] _ [Kc Kl]. cbn [fst snd] in *.
   eapply sg_bind; [apply sg_sub; left; lia|]. intros k0 _ [-> _].
   eapply sg_bind; [apply sg_sub; left; rewrite Kc; lia|]. intros k _ [-> _].
@@ -216,13 +216,13 @@ Proof.
   cbn [sg HRc]. split; [exact C | left; rewrite A, Kc2, Kc; lia].
 Qed.
 
-Lemma handle_footnote_cur o st c ind d : F1 line st -> sgc HRc (handle_footnote o st c line ind d).
+Lemma handle_footnote_cur o st c ind d : F1 line st -> sgc (HRc st) (handle_footnote o st c line ind d).
 Proof.
   intro F. f1start F.
   unfold handle_footnote, rest_at_fns, not_handled, fns, offset.
-  destruct (ind || _ || _); [exact F|].
+  destruct (ind || _ || _); [exact (conj F eq_refl)|].
   eapply sg_bind; [apply sg_slice_from; left; lia|]. intros rest _ [-> _].
-  destruct (scan_footnote_definition _) as [m|] eqn:Sc; [|exact F].
+  destruct (scan_footnote_definition _) as [m|] eqn:Sc; [|exact (conj F eq_refl)].
   pose proof (before_lf_at _ BlocksTotal4Scan.scan_footnote_definition_before_lf _ _ _ LN Lt Sc) as Lm.
   pose proof (BlocksTotal4Scan.scan_footnote_definition_ge _ _ Sc) as G5.
   assert (Cd : Nat.ltb m 2 || Nat.ltb (List.length line) (c_fns (ps_cur st) + m) = false).
@@ -237,16 +237,16 @@ Proof.
                        | left; rewrite Kc3, Kc, A; lia].
 Qed.
 
-Lemma handle_description_list_cur o st c ind : F1 line st -> sgc HRc (handle_description_list o st c line ind).
+Lemma handle_description_list_cur o st c ind : F1 line st -> sgc (HRc st) (handle_description_list o st c line ind).
 Proof.
   intro F. f1start F.
   unfold handle_description_list, rest_at_fns, not_handled, fns, offset.
-  destruct (ind || _); [exact F|].
+  destruct (ind || _); [exact (conj F eq_refl)|].
   eapply sg_bind; [apply sg_slice_from; left; lia|]. intros rest _ [-> _].
-  destruct (scan_description_item_start _) as [m|] eqn:Sc; [|exact F].
+  destruct (scan_description_item_start _) as [m|] eqn:Sc; [|exact (conj F eq_refl)].
   pose proof (before_lf_at _ BlocksTotal4Scan.scan_description_item_start_before_lf _ _ _ LN Lt Sc) as Lm.
   eapply sg_bind; [apply pdld_kc|]. intros [[ok c1] s1] _ K. cbn [snd] in K.
-  destruct (negb ok); [cbn [sg HRc]; eapply F1_KC; eassumption|].
+  destruct (negb ok); [cbn [sg HRc]; split; [eapply F1_KC; eassumption | destruct K as [-> _]; reflexivity]|].
   destruct K as [Kc Kl].
   eapply sg_bind; [apply sg_sub; left; rewrite Kc; lia|]. intros k _ [-> _].
   eapply sg_bind; [apply adv_bytes_C0; [congruence | rewrite Kc; lia]|]. intros s2 _ [C A].
@@ -286,14 +286,14 @@ Proof.
     right. eauto.
 Qed.
 
-Lemma handle_list_cur o st c ind d : F1 line st -> sgc HRc (handle_list o st c line ind d).
+Lemma handle_list_cur o st c ind d : F1 line st -> sgc (HRc st) (handle_list o st c line ind d).
 Proof.
   intro F. f1start F.
   unfold handle_list, not_handled, fns, offset.
   apply sgb; [auto with ngc|]. intros cn _. cbv zeta.
-  destruct (_ || _ || _); [exact F|].
+  destruct (_ || _ || _); [exact (conj F eq_refl)|].
   destruct (BlocksTotal4Marker.parse_list_marker_total line (c_fns (ps_cur st)) (is_paragraph cn) LN Lt) as [r E].
-  rewrite E. cbn [bind]. destruct r as [[matched nl0]|]; [|exact F].
+  rewrite E. cbn [bind]. destruct r as [[matched nl0]|]; [|exact (conj F eq_refl)].
   destruct (BlocksTotal4Marker.parse_list_marker_inside _ _ _ _ _ E) as [M1 Lm].
   eapply sg_bind; [apply sg_sub; left; lia|]. intros k _ [-> _].
   eapply sg_bind; [apply adv_bytes_C0; [exact Len | lia]|]. intros s1 _ [C A].
@@ -323,12 +323,12 @@ Proof.
 Qed.
 
 Lemma handle_code_block_cur o st c ind ml : F1 line st -> ind = Nat.leb code_indent (c_indent (ps_cur st)) ->
-  sgc HRc (handle_code_block o st c line ind ml).
+  sgc (HRc st) (handle_code_block o st c line ind ml).
 Proof.
   intros F Ei. f1start F.
   unfold handle_code_block, not_handled.
-  destruct ind; cbn [andb negb]; [|exact F]. symmetry in Ei. apply Nat.leb_le in Ei.
-  destruct (negb ml && negb (blank st)); cbn [negb]; [|exact F].
+  destruct ind; cbn [andb negb]; [|exact (conj F eq_refl)]. symmetry in Ei. apply Nat.leb_le in Ei.
+  destruct (negb ml && negb (blank st)); cbn [negb]; [|exact (conj F eq_refl)].
   eapply sg_bind; [apply adv_cols_cur; [exact (proj1 F) | exact Ei]|]. intros s1 _ (C & Bo & _).
   apply fin_add_child; [exact C | lia].
 Qed.
